@@ -301,6 +301,7 @@ class FSM(addons.AddonPersistence, block.SBlock):
             istate = [*istate, {}]
         state, exp_timestamp, sdata = istate
         self._check_state(state)
+        timer_args = None
         if exp_timestamp is not None:
             remaining = exp_timestamp - time.time()
             if remaining <= 0.0:
@@ -311,11 +312,15 @@ class FSM(addons.AddonPersistence, block.SBlock):
             except KeyError:
                 raise EdzedCircuitError(
                     f"cannot set a timer for a not timed state {state!r}") from None
-            self._set_timer(remaining, timed_event)
+            timer_args = (remaining, timed_event)
         self._state = state
         self.sdata = sdata
         self.log_debug("state: <UNDEF> -> %s", state)
         if (output := self.calc_output()) is not block.UNDEF:
+            if timer_args is not None:
+                # start the timer only when the state was really restored; after a failed
+                # restore the block gets initialized by other means and nobody would stop it
+                self._set_timer(*timer_args)
             self.set_output(output)
 
     def init_from_value(self, value: str) -> None:
